@@ -12,7 +12,8 @@ def T(module, *names, partial=False):
           "Kanzi.Properties.C10_header": "Kanzi.C10", "Kanzi.Properties.C02_hash": "Kanzi.C02",
           "Kanzi.Properties.C03_facts": "Kanzi.C03", "Kanzi.Properties.C18_facts": "Kanzi.C18",
           "Kanzi.Properties.C01": "Kanzi.C01", "Kanzi.Properties.C19_cli": "Kanzi.C19",
-          "Kanzi.Properties.C05_jobs": "Kanzi.C05", "Kanzi.Properties.C12_ans0": "Kanzi.C12"}[module]
+          "Kanzi.Properties.C05_jobs": "Kanzi.C05", "Kanzi.Properties.C12_ans0": "Kanzi.C12",
+          "Kanzi.Properties.C01_none": "Kanzi.C01none"}[module]
     return [{"module": module, "name": n if n.startswith("Kanzi.") else ns + "." + n, "partial": partial or n.endswith("_partial")} for n in names]
 
 
@@ -51,6 +52,8 @@ RACE = {"name": "race", "race": True, "timeout": 7200}
 CLI = {"name": "cli", "kmodel": "cli", "timeout": 7200}
 GOLDEN = {"name": "golden", "timeout": 7200}
 JOBS = {"name": "jobs", "kmodel": "jobs"}
+IMAGE = {"name": "image", "kmodel": "image"}
+MNONE = "Kanzi.Properties.C01_none"
 MJOBS = "Kanzi.Properties.C05_jobs"
 JOBS_T = ["C05_jobs_partition", "C05_jobs_fewer", "C05_jobs_closed_form", "C05_jobs_errors", "C05_bwt_chunks_covered_gen", "C05_bwt_chunks_covered"]
 
@@ -68,9 +71,10 @@ PROPS["C01"] = {
     "technique": "Lean 4 theorems: writer emits chunks(B,data) for every partition/jobs/hint, container frames parse back, reader returns their concatenation for every jobs/hint/read sizes (composition = round trip under H_codec); transform-sequence skip-flag round trip; NONE codec proved; real-code round-trip search over all codecs",
     "theorems": T(M01, "C01_roundtrip", "C01_empty_stream") + T(W, "C04_writer_blocks") + T(R, "C05_reader_refines_spec") + T(K, "C10_stream_layout")
                 + T(M13, "C13_sequence", "C13_sequence_mode_byte", "C13_sequence_small") + T(M12, "C12_none")
-                + T(MJOBS, "C05_bwt_chunks_covered", "C05_jobs_partition"),
-    "streams": [SW, SR, JOBS, RT, RTBIG],
-    "level_text": "PROOF of the stream layer under assumption H_codec, plus search. Proved for all data, all partitions into Write calls, all job counts on both sides, all size-hint values, all read sizes: Write/Close succeed, the blocks are chunks(B,data), the framed stream parses back to them, and the reader returns exactly data then end-of-stream (C01_roundtrip = C04_writer_blocks + C10_stream_layout + C05_reader_refines_spec); the transform sequence with any pattern of declined stages and both skip-flag layouts round-trips (C13_sequence*); NONE entropy proved (C12_none). ASSUMED (H_codec) for the other transforms/entropy codecs: decode(encode(block)) = block - searched on the real code (rt/rtbig: every transform and entropy, chains up to 8, all data shapes, block sizes, jobs, hints, headerless).",
+                + T(MJOBS, "C05_bwt_chunks_covered", "C05_jobs_partition")
+                + T(MNONE, "C01_codec_NONE", "C01_codec_NONE_task", "C01_codec_NONE_bits", "C01_stream_image_layers", "C01_stream_image_parses", "C01_stream_image_fast", "C01_none_end_to_end"),
+    "streams": [SW, SR, JOBS, IMAGE, RT, RTBIG],
+    "level_text": "PROOF of the stream layer under assumption H_codec, plus search. Proved for all data, all partitions into Write calls, all job counts on both sides, all size-hint values, all read sizes: Write/Close succeed, the blocks are chunks(B,data), the framed stream parses back to them, and the reader returns exactly data then end-of-stream (C01_roundtrip = C04_writer_blocks + C10_stream_layout + C05_reader_refines_spec); the transform sequence with any pattern of declined stages and both skip-flag layouts round-trips (C13_sequence*); NONE entropy proved (C12_none); for the NONE/NONE codec H_codec is PROVED incl. the copy-block branch and the three checksum widths (C01_codec_NONE) and the whole chain is closed at the byte level: the bytes the Writer model emits, for any partition/jobs/hint, parse back through header, framing and block decode to the data (C01_none_end_to_end), and that byte image is byte-identical to the real Writer's output (image stream). ASSUMED (H_codec) for the other transforms/entropy codecs: decode(encode(block)) = block - searched on the real code (rt/rtbig: every transform and entropy, chains up to 8, all data shapes, block sizes, jobs, hints, headerless).",
     "level_note": BASE_NOTE + "H_codec for 17 transforms and 8 entropy codecs is an assumption covered only by the rt/rtbig search; buffer-size sufficiency of the decoder for chained expanding transforms is searched, not proved.",
     "assumptions": ["H_codec: per-block decode(encode(b)) = b and consumes exactly the encoder's bits, for codecs other than NONE/ZRLT/SBRT/Null"],
 }
@@ -78,9 +82,10 @@ PROPS["C01"] = {
 PROPS["C02"] = {
     "title": "Checksummed streams never yield wrong bytes", "design_ref": "5.2", "level": "proof",
     "technique": "Lean 4 theorems on the reader state machine (nothing after an error; every returned byte precedes the failed block) + executable XXHash32/64 and header-CRC models tied differentially; payload-corruption search on real streams",
-    "theorems": T(R, "C02_nothing_after_error", "C05_error_position") + T(M02H, "C02_hash_total", "C02_hash_stripes", "C02_hash_xxh32_vectors") + T(M10H, "C10_header_crc_detects_single_field"),
-    "streams": [SR, HASH, CORRUPT],
-    "level_text": "PROOF of the mechanism, hash quality out of scope. Proved on the reader model for every stream, job count and read-size sequence: a block whose decode/verification fails is reported by the Read that reaches it, every byte ever returned lies before it, and no later Read returns any byte (C05_error_position, C02_nothing_after_error). The XXHash32/64 functions and the header checksum are modelled bit-exactly (BitVec) and tied to the Go code differentially (hash stream). That a modified payload makes the recomputed hash differ is NOT provable for a 32/64-bit hash (collisions exist): searched - bit flips / substitutions / swaps at payload positions computed by an independent container parser, all entropy codecs, checksum 32/64; results must be error or original; true collisions are recognised and logged.",
+    "theorems": T(R, "C02_nothing_after_error", "C05_error_position") + T(M02H, "C02_hash_total", "C02_hash_stripes", "C02_hash_xxh32_vectors") + T(M10H, "C10_header_crc_detects_single_field")
+                + T(MNONE, "C02_crc_mismatch_detected", "C02_crc_field_checked", "C02_damaged_payload_shape"),
+    "streams": [SR, HASH, IMAGE, CORRUPT],
+    "level_text": "PROOF of the mechanism, hash quality out of scope. Proved on the reader model for every stream, job count and read-size sequence: a block whose decode/verification fails is reported by the Read that reaches it, every byte ever returned lies before it, and no later Read returns any byte (C05_error_position, C02_nothing_after_error). For the NONE/NONE block decoder: a payload whose data bytes or checksum field were replaced is rejected with a CRC error whenever the two hashes differ (C02_crc_mismatch_detected, C02_crc_field_checked). The XXHash32/64 functions and the header checksum are modelled bit-exactly (BitVec) and tied to the Go code differentially (hash stream). That a modified payload makes the recomputed hash differ is NOT provable for a 32/64-bit hash (collisions exist): searched - bit flips / substitutions / swaps at payload positions computed by an independent container parser, all entropy codecs, checksum 32/64; results must be error or original; true collisions are recognised and logged.",
     "level_note": BASE_NOTE + "Collision resistance of XXHash is not assumed and not proved; the per-codec decode of corrupted payloads is real code only.",
     "assumptions": ["a corrupted block either fails to decode or decodes to bytes whose hash differs from the stored one, except for hash collisions (probability 2^-32 / 2^-64 per trial)"],
 }
